@@ -276,6 +276,19 @@ def r4_fallback(ctx):
     restr = [n for n in astx.walk_own(f.node) if isinstance(n, ast.DictComp) and
              any(bool_key(N.guard(t)) == f"in({n.generators[0].target.elts[0].id if isinstance(n.generators[0].target, ast.Tuple) else '?'}, {p_set})"
                  for t in n.generators[0].ifs)]
+    # the same restriction spelled as a loop:  for c, s in X.items(): if c in r_set: D[c] = ...   (D goes to the ranking)
+    ranked = {astx.u(c.args[0]) for c in astx.calls_in(f.node, "score_dict_to_ranking") if c.args}
+    for n in astx.walk_own(f.node):
+        if isinstance(n, ast.Assign) and isinstance(n.targets[0], ast.Subscript) and astx.u(n.targets[0].value) in ranked:
+            lp = astx.enclosing(n, pm, ast.For)
+            if lp is None or not isinstance(lp.target, ast.Tuple) or not isinstance(lp.target.elts[0], ast.Name):
+                continue
+            k = lp.target.elts[0].id
+            lits = _all_literals(N.conj(astx.path_condition(f.node, n, pm)))
+            stores = [x for x in astx.walk_own(f.node) if isinstance(x, (ast.Assign, ast.AugAssign)) and isinstance(x.targets[0] if isinstance(x, ast.Assign) else x.target, ast.Subscript)
+                      and astx.u((x.targets[0] if isinstance(x, ast.Assign) else x.target).value) == astx.u(n.targets[0].value)]
+            if astx.is_name(n.targets[0].slice, k) and f"in({k}, {p_set})" in lits and len(stores) == 1:
+                restr.append(n)
     ctx.check(bool(restr), f, restr[0] if restr else f.node, "tiebreak scores restricted to the tied set", "if c in r_set",
               "the scores used to order the tie are not restricted to the tied candidates")
     # fallback
